@@ -53,6 +53,7 @@ type TxnRec struct {
 	Writes      []WriteRec
 	Locks       []LockRec
 	Ended       string // "" | commit | rollback | killed
+	Told        bool   // Commit returned while the client was still alive
 	CommitErr   string
 	CommitClass string // ok | undetermined | key-exists | write-conflict | definite
 	CommitTS    uint64
@@ -189,7 +190,7 @@ func CheckHistory(txns []*TxnRec, truth *Truth, keys []string, rules map[string]
 	for _, t := range txns {
 		o := outcomes[t.ID]
 		// R-ack
-		if on("ack") && t.Ended == "commit" {
+		if on("ack") && (t.Ended == "commit" || (t.Ended == "killed" && t.Told)) {
 			switch t.CommitClass {
 			case "ok":
 				last, itd := t.Effective()
